@@ -12,6 +12,7 @@ from decimal import Decimal
 from pyvc.api import proof, native, exact, spec, EffectContract
 from .aave_common import *   # noqa
 from .aave_common import AAVE_CONTRACTS, world, raw_state, dump, DUST, reset_caches
+from .common import REJECT
 from demeter.aave import AaveV3Market
 from demeter.aave._typing import LiquidationAction
 
@@ -224,3 +225,36 @@ def po_update_next_bar(S):
         S.check("bar-1:health-factor<1=>liquidated(unless-no-collateral)", len(w.actions) >= 1 or wlt == 0)
     else:
         S.check("bar-1:health-factor>=1=>no-liquidation", len(w.actions) == 0)
+
+
+@proof("C12", "update/after-a-same-bar-operation:liquidated-iff-health-factor<1-of-the-positions-as-they-are-then", strength="S",
+       shapes={"quick": [dict(LOOP_SHAPES_MODULAR["thorough"][0], ops="supply")],
+               "thorough": [dict(LOOP_SHAPES_MODULAR["thorough"][0], ops="supply"), dict(LOOP_SHAPES_MODULAR["thorough"][0], ops="repay"), dict(LOOP_SHAPES_MODULAR["thorough"][1], ops="supply")]},
+       contracts=DO_LIQUIDATE_CONTRACT, config={"max_seconds": 900, "max_paths": 20000, "native_samples": {"quick": 20, "thorough": 100}})
+def po_update_after_operation(S):
+    """The end-of-bar check looks at the positions as they are at the end of the bar: the strategy reads the (memoised) views, then tops up
+    its collateral or repays part of a debt in the same bar; update() liquidates iff the health factor of the positions AFTER that
+    operation is below 1 (a top-up that lifts it to >= 1 prevents the liquidation, one that does not, does not)."""
+    from .aave_common import read_views
+    w = world(S)
+    m = w.market
+    m.is_open = True
+    read_views(m)
+    c = [t for t in m._supplies][0]
+    try:
+        if S.shape["ops"] == "supply":
+            m.supply(c, S.dec("top_up", 0, 10 ** 12, lo_strict=True), m._supplies[c].collateral)
+        else:
+            m.repay([t for t in m._borrows][0], S.dec("repayment", 0, 10 ** 12, lo_strict=True))
+    except REJECT:
+        return
+    n0 = len(w.actions)
+    healthy = hf_at_least_one(m)
+    wlt = weighted_collateral(m, "LT")
+    m.update()
+    liquidated = len(w.actions) > n0
+    if healthy:
+        S.cover("healthy")
+        S.check("health-factor>=1-after-the-operation=>no-liquidation", not liquidated)
+    else:
+        S.check("health-factor<1-after-the-operation=>liquidated(unless-no-collateral)", liquidated or wlt == 0)
